@@ -20,6 +20,7 @@ from collections import OrderedDict
 from copy import deepcopy
 from functools import partial
 from itertools import chain
+from os import path
 from textwrap import indent
 
 from black import Mode, format_str
@@ -567,6 +568,12 @@ def file(node, filename, mode="a", skip_black=False):
                 string_normalization=False,
             ),
         )
+    if mode.startswith("a") and path.isfile(filename):
+        with open(filename, "rt") as f:
+            existing_src = f.read()
+        if existing_src and not existing_src.endswith("\n"):
+            # Appending to a last line without a newline would glue two statements together
+            src = "\n{}".format(src)
     with open(filename, mode) as f:
         f.write(src)
 
